@@ -35,7 +35,7 @@ theorem append_ok {f : Forest} (w : f.W) {p c : Nat} (hs : f.structureCheck (som
     simp only [Bool.false_eq_true, if_false]
     obtain ⟨P, os⟩ := oldSite w c
     generalize (f.removeConsolidate (f.prevSibling c) (f.nextSibling c)).1 = f1 at os ⊢
-    obtain ⟨w2, hsame, fr2⟩ := addConsolidate_spec os.w c (f1.lastChild p) none
+    obtain ⟨w2, hsame, fr2, _⟩ := addConsolidate_spec os.w c (f1.lastChild p) none
     cases hc2 : (f1.addConsolidate c (f1.lastChild p) none).2 with
     | true => simp only [if_true]; exact moveOk_of_added w os ck.liveC w2 fr2
     | false =>
@@ -82,7 +82,7 @@ theorem prepend_ok {f : Forest} (w : f.W) {p c : Nat} (hs : f.structureCheck (so
     simp only [Bool.false_eq_true, if_false]
     obtain ⟨P, os⟩ := oldSite w c
     generalize (f.removeConsolidate (f.prevSibling c) (f.nextSibling c)).1 = f1 at os ⊢
-    obtain ⟨w2, hsame, fr2⟩ := addConsolidate_spec os.w c none (f1.firstChild p)
+    obtain ⟨w2, hsame, fr2, _⟩ := addConsolidate_spec os.w c none (f1.firstChild p)
     cases hc2 : (f1.addConsolidate c none (f1.firstChild p)).2 with
     | true => simp only [if_true]; exact moveOk_of_added w os ck.liveC w2 fr2
     | false =>
@@ -195,7 +195,7 @@ theorem insertAfter_ok {f : Forest} (w : f.W) {r n q : Nat} (hpr : f.parent? r =
       f.nextSibling n == some r) = true then (f.prevSibling n).getD r else r) = ref'
       at href hrefne ⊢
     generalize (f.removeConsolidate (f.prevSibling n) (f.nextSibling n)).1 = f1 at os href ⊢
-    obtain ⟨w2, hsame, fr2⟩ := addConsolidate_spec os.w n (some ref') (f1.nextSibling ref')
+    obtain ⟨w2, hsame, fr2, _⟩ := addConsolidate_spec os.w n (some ref') (f1.nextSibling ref')
     cases hc2 : (f1.addConsolidate n (some ref') (f1.nextSibling ref')).2 with
     | true => simp only [if_true]; exact moveOk_of_added w os ck.liveC w2 fr2
     | false =>
@@ -234,7 +234,7 @@ theorem insertBefore_ok {f : Forest} (w : f.W) {r n q : Nat} (hpr : f.parent? r 
     have href : (f.removeConsolidate (f.prevSibling n) (f.nextSibling n)).1.parent? r = some q := by
       rw [os.fr.parent r hrP, hpr]
     generalize (f.removeConsolidate (f.prevSibling n) (f.nextSibling n)).1 = f1 at os href ⊢
-    obtain ⟨w2, hsame, fr2⟩ := addConsolidate_spec os.w n (f1.prevSibling r) (some r)
+    obtain ⟨w2, hsame, fr2, _⟩ := addConsolidate_spec os.w n (f1.prevSibling r) (some r)
     cases hc2 : (f1.addConsolidate n (f1.prevSibling r) (some r)).2 with
     | true => simp only [if_true]; exact moveOk_of_added w os ck.liveC w2 fr2
     | false =>
